@@ -18,6 +18,7 @@ from concurrent.futures import ThreadPoolExecutor
 import vlib
 sys.path.insert(0, os.path.dirname(os.path.dirname(os.path.abspath(__file__))))
 import c02_rows
+import c02_tables
 
 MATTR = ("+v8.8a,+lse,+crc,+rcpc,+rcpc-immo,+mte,+pauth,+flagm,+altnzcv,+fp-armv8,+neon,+fullfp16,+fp16fml,+bf16,+i8mm,+dotprod,"
          "+complxnum,+jsconv,+rdm,+sha2,+sha3,+sm4,+aes,+ls64,+mops,+hbc,+brbe,+tme,+sb,+ssbs,+predres,+rand,+spe,+wfxt,+xs,+lor,"
@@ -222,12 +223,33 @@ def print_gnu(entry, ops):
                 bad = True
             elif k == "SVecElem" and re.match(r"^(ld|st)[1-4]$", name):
                 t = "{ %s }[%d]" % (t.split("[")[0], o[3])
+            elif k == "SVec" and name in ("tbl", "tbx") and len(out) == 1:
+                t = "{ %s }" % t            # the table of TBL/TBX is a register list even when it has one member
             out.append(t)
             continue
         if k == "SImmConst":
             if o[0] != "i":
                 return None
             out.append("#0.0" if entry["row"]["ops"][len(out)] == "#0.0" else "#%d" % o[2])
+            continue
+        if k == "SSysOp":
+            if o[0] != "i":
+                return None
+            v = o[2]
+            if not (0 <= v < 16384):
+                bad = True
+            else:
+                mn = "sys"          # AT/DC/IC/TLBI are aliases of SYS #op1, Cn, Cm, #op2{, Xt}; the generic form needs no operation names
+                out.append("#%d, c%d, c%d, #%d" % (v >> 11, (v >> 7) & 15, (v >> 3) & 15, v & 7))
+            continue
+        if k == "SGpPair":
+            if o[0] != "g" or i >= len(ops) or ops[i][0] != "g":
+                return None
+            o2 = ops[i]; i += 1
+            t1, t2 = p_gp(o[1], o[2]), p_gp(o2[1], o2[2])
+            if t1 is None or t2 is None:
+                bad = True
+            out.append(str(t1)); out.append(str(t2))
             continue
         if k in ("SGp", "SExtReg", "SGpDup"):
             if o[0] != "g":
@@ -367,6 +389,22 @@ def strata(s, pos, rng, tier, isx):
         return out
     if k == "SImmConst":
         return [[("i", 0, s[1])], [("i", 0, s[1] + 1)], [("i", 0, -1)]]
+    if k == "SSysOp":
+        crn = s[4]
+
+        def mk(op1, cn, cm, op2):
+            return (op1 << 11) | (cn << 7) | (cm << 3) | op2
+        vs = [mk(3, crn, 5, 2), mk(0, crn, 0, 0), mk(7, crn, 15, 7), mk(4, crn, 8, 1), mk(0, crn, 8, 0), mk(3, (crn + 1) % 16, 5, 2), mk(3, crn ^ 8, 5, 2),
+              16384 | mk(3, crn, 5, 2), 32768, -1, mk(6, crn, 3, 1), mk(3, crn, 7, 4), mk(0, crn, 6, 1), mk(4, crn, 7, 6)]
+        return [[("i", 0, v)] for v in vs]
+    if k == "SGpPair":
+        x = s[1]
+        b0 = 2 * pos + 2
+        out = [[("g", x, b0), ("g", x, b0 + 1)]]
+        for a_, b_ in ((0, 1), (28, 29), (30, 63), (30, 31), (1, 2), (3, 4), (b0, b0 + 2), (b0, b0), (32, 33), (62, 63), (31, 32), (b0 + 1, b0)):
+            out.append([("g", x, a_), ("g", x, b_)])
+        out += [[("g", not x, b0), ("g", not x, b0 + 1)], [("g", x, b0), ("g", not x, b0 + 1)], [("g", x, b0)]]
+        return out
     if k == "SVShift":
         es = s[2]
         vs = [3, 0, 1, es - 1, es, es + 1, -1, 7, 8, 9, 15, 16, 17, 31, 32, 33, 63, 64, 65, 2 * es]
@@ -495,6 +533,9 @@ def strata(s, pos, rng, tier, isx):
         mx = ((1 << (w - 1)) - 1) * scale
         mn = -(1 << (w - 1)) * scale
         ds = [scale * 5, 0, scale, -scale, mx, mx + scale, mn, mn - scale, mx - scale, mn + scale]
+        if scale == 4096:      # ADRP reaches +-4 GiB; the harness buffer holds +-128 MiB: limits are not reachable, interior and alignment are
+            mx, mn = (1 << 27) - 4096, -(1 << 27)
+            ds = [scale * 5, 0, scale, -scale, mx, mn, 1, 4, 2048, 4095, 4097, -1, scale * 0x5A5, -scale * 0x3C3]
         if scale > 1:
             ds += [1, 2, -1, mx + 1, scale + 1]
         for _ in range(4 if tier == "quick" else 40):
@@ -630,6 +671,27 @@ class Gen:
                 add(base[:-1], "drop-last")
                 if sum(len(g) for g in base) < 4:       # _emit dispatches on the first four operands only
                     add(base + [[("i", 0, 0)]], "extra-imm")
+        return cases
+
+    def revalidation(self):
+        """cases for the rows of corpus/C02/db_excluded.json: base + single variations, the model side evaluates that very row (command X)"""
+        cases = []
+        for e in self.b.get("exsup", []):
+            r = e["row"]
+            ids = self.names.get(asm_name(r["name"]))
+            if not ids:
+                continue
+            inst_id = ids[-1] if ("ASIMD" in r["cat"] and len(ids) > 1) else ids[0]
+            e["inst_id"] = inst_id
+            isx = c02_rows.row_is_x(r)
+            strat = [strata(s, pos, self.rng, "quick", isx) for pos, s in enumerate(e["syn"])]
+            base = [st[0] for st in strat]
+            groups = [base] + [base[:j] + [g] + base[j + 1:] for j, st in enumerate(strat) for g in st[1:6]]
+            for g in groups:
+                c = self.mk(e, inst_id, g, "revalidate")
+                if c is not None:
+                    c["mcmd"] = "X" + c["cmd"][1:].replace(" %d %d " % (inst_id, self.b["mn_id"][r["name"]]), " %d %d " % (r["idx"], self.b["mn_id"][r["name"]]), 1)
+                    cases.append(c)
         return cases
 
     def phase2(self, good):
@@ -781,6 +843,10 @@ def operand_defect_key(case, enc_of):
                 return "C02/vector-operand-type-unchecked/%s/op%d" % (enc, i)
             if o[3] >= sy[6]:
                 return "C02/lane-index-unchecked/%s/op%d" % (enc, i)
+        if sy[0] == "SSysOp" and o[0] == "i" and 16384 <= o[2] < 32768:
+            return "C02/sysop-id-above-14-bits-accepted/%s" % enc
+        if sy[0] == "SGpPair" and i + 1 < len(case["ops"]) and o[0] == "g" and case["ops"][i + 1][0] == "g" and o[2] == 30 and case["ops"][i + 1][2] == 31:
+            return "C02/pair-partner-of-r30-is-sp-instead-of-zr/%s" % enc
         if sy[0] == "SVecList":
             regs = case["ops"][i:i + sy[1]]
             if any(x[0] != "v" for x in regs) or len(regs) < sy[1]:
@@ -793,7 +859,7 @@ def operand_defect_key(case, enc_of):
             continue
         if sy[0] in ("SVec", "SVecElem") and o[0] == "g":
             return "C02/vector-operand-type-unchecked/%s/op%d" % (enc, i)
-        i += 2 if (sy[0] in ("SBitfield",) and sy[1] != 2) else 1
+        i += 2 if ((sy[0] in ("SBitfield",) and sy[1] != 2) or sy[0] == "SGpPair") else 1
     if any(s[0] == "SLogImm" for s in e["syn"]) and any(o[0] == "g" and not o[1] for o in case["ops"]) \
             and any(o[0] == "i" and not (-(1 << 32) <= o[2] < (1 << 32)) for o in case["ops"]):
         return "C02/logical-imm32-upper-bits-ignored/%s" % enc
@@ -840,6 +906,10 @@ class Judge:
             if c["asm"] is not None and c["asm"] is not INVALID:
                 tix.append(i)
                 texts.append(c["asm"])
+        # mnemonics with an unscaled fall-back (LDR->LDUR, PRFM->PRFUM): llvm-mc converts some of them itself, not all; a second opinion on
+        # the text with the fall-back mnemonic is asked and used when the first text is rejected
+        alt_ix = [i for i in tix if cases[i]["entry"]["row"]["name"] in c02_rows.ALT_MNEMONIC]
+        texts += [re.sub(r"^\S+", c02_rows.ALT_MNEMONIC[cases[i]["entry"]["row"]["name"]], cases[i]["asm"]) for i in alt_ix]
         ro = run_llvm_mc(texts) if texts else []
         if isinstance(ro, tuple):
             ck.violation("C02/oracle-crash", "llvm-mc run failed: %s" % (ro,), {"detail": str(ro), "broken": "oracle"}, no_input=True)
@@ -847,6 +917,10 @@ class Judge:
             return
         for i, r in zip(tix, ro):
             cases[i]["oracle"] = r
+        for i, r in zip(alt_ix, ro[len(tix):]):
+            if cases[i]["oracle"][0] == "err" and r[0] == "ok":
+                cases[i]["oracle"] = r
+                cases[i]["asm"] = re.sub(r"^\S+", c02_rows.ALT_MNEMONIC[cases[i]["entry"]["row"]["name"]], cases[i]["asm"])
         # a row whose BASE case (accepted with equal words by implementation and specification) is rejected by llvm-mc is a form llvm-mc 14
         # does not know (newer extension): the oracle is unavailable for all its cases (counted, named in the evidence)
         for c, xi, xm in zip(cases, ri, rm):
@@ -857,6 +931,35 @@ class Judge:
         for c, xi, xm in zip(cases, ri, rm):
             self.ncases += 1
             self.one(c, xi, xm)
+
+    def revalidate(self, cases):
+        """-> (rows that still disagree, rows examined). A recorded DB defect is confirmed when llvm-mc and the implementation agree on a
+        word that the row does not give."""
+        if not cases:
+            return set(), set()
+        ri = run_sharded(self.impl, [c["cmd"] for c in cases])
+        rm = run_sharded(self.model, [c["mcmd"] for c in cases])
+        if isinstance(ri, tuple) or isinstance(rm, tuple):
+            self.ck.violation("C02/harness-crash", "revalidation run failed: %s" % ((ri if isinstance(ri, tuple) else rm),), {"broken": "revalidation stream"}, no_input=True)
+            return set(), set()
+        for c in cases:
+            c["asm"] = print_gnu(c["entry"], c["ops"])
+        tix = [i for i, c in enumerate(cases) if c["asm"] is not None and c["asm"] is not INVALID]
+        ro = run_llvm_mc([cases[i]["asm"] for i in tix]) if tix else []
+        if isinstance(ro, tuple):
+            return set(), set()
+        orc = dict(zip(tix, ro))
+        still, seen = set(), set()
+        for i, (c, xi, xm) in enumerate(zip(cases, ri, rm)):
+            I, M = parse_impl(xi), parse_model(xm)
+            key = c["entry"]["row"]["inst"] + " | " + c["entry"]["row"]["opstr"]
+            seen.add(key)
+            O = orc.get(i)
+            if "bad" in I or "bad" in M or O is None or O[0] != "ok":
+                continue
+            if I["ok"] and O[1] == I["words"] and (not M["ok"] or M["words"] != I["words"]):
+                still.add(key)
+        return still, seen
 
     def one(self, c, xi, xm):
         ck, stats, enc_of = self.ck, self.stats, self.enc_of
@@ -1006,23 +1109,51 @@ def judge_mov_imm(self, c, I, O, enc):
 Judge.judge_mov_imm = judge_mov_imm
 
 
+def regen_own(ck, files, order, timeout=900):
+    """Translator tie restricted to C02's own generated files (vlib.coq_regen recompiles EVERY file of coq/gen, which takes minutes since the
+    other properties' tables live there too): if every text equals the committed coq/gen/<name> -> None; else the texts are written to a
+    scratch directory and compiled there in `order` with -Q <dir> VerifGen (only these files are visible as VerifGen.*, which is all that
+    Properties_C02*.v and Extract_A64.v import). Returns (gen_dir, failed_files, log)."""
+    import shutil
+    gen = os.path.join(vlib.COQ, "gen")
+    if all(os.path.exists(os.path.join(gen, n)) and open(os.path.join(gen, n)).read() == t for n, t in files.items()):
+        return None
+    wgen = os.path.join(ck.work, "gen")
+    shutil.rmtree(wgen, ignore_errors=True)
+    os.makedirs(wgen)
+    for n, t in files.items():
+        open(os.path.join(wgen, n), "w").write(t)
+    args = ["-Q", os.path.join(vlib.COQ, "theories"), "Verif", "-Q", wgen, "VerifGen", "-w", "-all"]
+    failed, log = [], ""
+    for n in order:
+        rc, out, err = vlib.sh(["coqc"] + args + [os.path.join(wgen, n)], cwd=wgen, timeout=timeout)
+        if rc != 0:
+            failed.append(n)
+            log += (out + err)[-3000:]
+    return wgen, failed, log
+
+
 def run(ck):
     rng = random.Random(ck.seed)
     # ---------------- S1 translator
     b = c02_rows.build()
     ck.log("ISA DB rows: %d, supported by the model: %d, unsupported: %d, overrides applied: %d" % (len(b["rows"]), len(b["sup"]), len(b["unsup"]), len(b["applied"])))
-    regen = ck.coq_regen({"IsaA64Db.v": b["coq"]})
+    tb = c02_tables.build(ck, b)
+    ck.log("EncodingData opcode constants: %d dumped, %d compared with their database rows (%s not covered, %d without supported rows)" % (
+        tb["dumped"], tb["entries"], sum(tb["classes_not_covered"].values()), tb["without_supported_rows"]))
+    regen = regen_own(ck, {"IsaA64Db.v": b["coq"], "A64Tables.v": tb["coq"]}, ["IsaA64Db.v", "A64Tables.v"])
     gen_dir, regen_failed, rlog = None, [], ""
     if regen is not None:
         gen_dir, regen_failed, rlog = regen
         ck.log("ISA database differs from the committed snapshot: regenerated IsaA64Db.v, failed files: %s" % regen_failed)
     # ---------------- S2 theorems
     obl = ck.coq_properties(gen_dir=gen_dir)
+    obl += ck.coq_properties(module="Properties_C02_tables", gen_dir=gen_dir)
     ck.log("theorems: %d, failed: %d" % (len(obl), len([o for o in obl if not o["ok"]])))
     # ---------------- S3 executables
     impl = ck.build_harness("c02", ["c02_harness.cpp"])
     model = None
-    if not regen_failed:
+    if "IsaA64Db.v" not in regen_failed:
         model = ck.ocaml_model("Extract_A64.v", ["zconv.ml", "c02_driver.ml"], name="c02", gen_dir=gen_dir)
     rc, out, err = vlib.sh([impl, "--names"], timeout=60)
     encn = encoding_names()
@@ -1058,14 +1189,28 @@ def run(ck):
     # applied DB overrides are defects of the database: reported (known findings)
     for o in b["applied"]:
         ck.violation(o["key"], o["why"], {"db_row": o["inst"] + " | " + o["op"], "corrected": o})
+    still, seen = J.revalidate(gen.revalidation()) if not J.crashed else (set(), set())
+    stale = []
     for o in b["excluded"]:
-        ck.violation(o["key"], o["why"], {"db_row": o["inst"] + " | " + o["op"], "excluded": True})
+        k = o["inst"] + " | " + o["op"]
+        if k in seen and k not in still:
+            stale.append(k)
+            ck.violation("C02/stale-db-exclusion/" + k, "row `%s` is listed in corpus/C02/db_excluded.json but no longer disagrees with a64::Assembler and llvm-mc on the "
+                         "re-validation cases: remove it from the list so that the model covers it" % k, {"db_row": k, "broken": "corpus/C02/db_excluded.json (stale entry)"}, no_input=True)
+        else:
+            ck.violation(o["key"], o["why"], {"db_row": k, "excluded": True})
+    ck.log("re-validated %d excluded DB rows: %d still disagree, %d stale, %d not examinable" % (len(b["excluded"]), len(still), len(stale), len(b["excluded"]) - len(seen)))
     for o in ck.proof_failures():
         ck.violation("C02/proof/" + o["name"], "theorem %s no longer checks (%s)" % (o["name"], getattr(ck, "coq_log", "")[-800:]),
-                     {"broken": "theorem " + o["name"], "file": "coq/theories/Properties/Properties_C02.v"}, no_input=True)
+                     {"broken": "theorem " + o["name"], "file": "coq/theories/Properties/Properties_C02*.v"}, no_input=True)
     for f in regen_failed:
-        ck.violation("C02/translator/" + f, "regenerated %s does not compile (a DB row is not well formed): %s" % (f, rlog[-800:]),
-                     {"broken": "reflection lemma rows_wf in coq/gen/" + f}, no_input=True)
+        if f == "A64Tables.v":
+            bad = c02_tables.disagreeing(tb, b)
+            ck.violation("C02/translator/A64Tables.v", "the opcode constants of the EncodingData tables no longer agree with the fixed bits of the database rows "
+                         "(reflection lemma enc_table_agrees fails): %s" % "; ".join(bad[:8]), {"broken": "enc_table_agrees in coq/gen/A64Tables.v (C02_tables_agree_db_partial)", "entries": bad[:40]}, no_input=True)
+        else:
+            ck.violation("C02/translator/" + f, "regenerated %s does not compile (a DB row is not well formed): %s" % (f, rlog[-800:]),
+                         {"broken": "reflection lemma rows_wf in coq/gen/" + f}, no_input=True)
     unsup = {}
     for r, reason in b["unsup"]:
         kk = re.sub(r"(operand syntax|immediate transformation|field) .*", r"\1", reason)
@@ -1087,7 +1232,10 @@ def run(ck):
         "oracle_unknown_mnemonics": sorted(J.oracle_unknown_mn), "oracle_unavailable_rows": len(J.oracle_unavail_rows),
         "impl_refuses_encodable_by_form": dict(sorted(J.spurious.items(), key=lambda x: -x[1])[:60]),
         "out_of_scope_shapes_accepted_by_impl": J.out_of_scope_accepted,
+        "encoding_tables": {"instructions_dumped": tb["dumped"], "compared_with_db_rows": tb["entries"], "classes_not_covered": tb["classes_not_covered"],
+                            "without_supported_rows": tb["without_supported_rows"]},
         "db_overrides_applied": [o["key"] for o in b["applied"]], "db_rows_excluded_as_defective": len(b["excluded"]),
+        "db_exclusions_revalidated": {"still_disagree": len(still), "stale": len(stale), "not_examinable": len(b["excluded"]) - len(seen)},
         "traces_validated_against_impl": J.ncases, "model_vs_impl_disagreements": J.ncases - stats["agree"] - stats["out_of_scope_shape"],
     }
     min_rows = 0
